@@ -1,7 +1,8 @@
 from vp_check import Ob
 
 META = dict(
-    not_decided=['Rabin-Miller on multi-word numbers', 'parameter generation from seeds'],
+    not_decided=['Rabin-Miller on multi-word numbers and priIsPrimeW (64-bit modular exponentiation with symbolic modulus)', 'parameter generation from seeds',
+                 'parameter/key validators of bign, bign96, g12s, stb99, dstu, pfok, bels (need EC / multi-word arithmetic on symbolic data)', 'ppIsIrred above the stated degree'],
     assumptions=[],
 )
 
@@ -12,4 +13,22 @@ def obligations(tier):
                   bound='all (y,m,d) in size_t^3 (full 64-bit width)', funcs=['tmDateIsValid'], timeout=120, backend=['z3','cvc5']))
     obs.append(Ob(name='c12_tmDateIsValid2', harness='harness/C12/tm_date.c', entry='h_date2', srcs=tm,
                   bound='all 2^48 six-octet strings', funcs=['tmDateIsValid2', 'tmDateIsValid'], timeout=120, backend=['z3','cadical']))
+    # ppIsIrred for every polynomial of small degree, against a table from exact trial division
+    def pmod(a, b):
+        db = b.bit_length() - 1
+        while a and a.bit_length() - 1 >= db: a ^= b << (a.bit_length() - 1 - db)
+        return a
+    def irreducible(a):
+        d = a.bit_length() - 1
+        if d < 1: return False
+        return all(pmod(a, b) != 0 for b in range(2, 1 << (d // 2 + 1)))
+    for deg in (() if tier == 'quick' else (6, 8)):   # quick: no verdict in 900 s even at degree < 8
+        bits = bytearray((1 << deg) // 8)
+        for a in range(1 << deg):
+            if irreducible(a): bits[a >> 3] |= 1 << (a & 7)
+        table = '{' + ','.join(str(b) for b in bits) + '}'
+        obs.append(Ob(name='c12_ppIsIrred_deg%d' % deg, harness='harness/C12/irred.c', entry='h_irred', word=16, defs=['DEG=%d' % deg, 'IRR_TABLE=' + table],
+                      srcs=['src/math/pp/pp_etc.c', 'src/math/pp/pp_gcd.c', 'src/math/pp/pp_mod.c', 'src/math/pp/pp_mul.c', 'src/math/pp/pp_red.c', 'src/math/ww.c', 'src/core/mem.c', 'src/core/util.c', 'src/core/word.c', 'src/core/u16.c', 'src/core/u32.c'],
+                      unwind=40, timeout=3000, mem_gb=16, checks=['--bounds-check', '--pointer-check'], backend=['cadical', 'kissat'],
+                      funcs=['ppIsIrred', 'ppGCD', 'ppSqrMod'], bound='every binary polynomial of degree < %d (16-bit words, n = 1) against exact trial division' % deg))
     return obs
